@@ -20,7 +20,7 @@ class Contract:
                  ghost_modifies=(), pure=False, notes="", bodyless=False, lemmas=None, cls=None,
                  timeout_ms=None, frame_check=True, inline=False, forall_ghosts=(), watch_extra=None,
                  model_to_inputs=None, native=None, cuts=None, defaults=None, init_fields=None, volatile=(), local_raises=(),
-                 lazy_opt=False):
+                 lazy_opt=False, applies=None, inline_callees=()):
         self.id = id
         self.file = file
         self.qualname = qualname
@@ -41,6 +41,8 @@ class Contract:
         self.defs = defs or {}
         self.ufuncs = ufuncs or {}
         self.lazy_opt = lazy_opt
+        self.applies = applies
+        self.inline_callees = tuple(inline_callees)
         self.axioms = list(axioms)
         self.canaries = canaries or {}
         self.on_yield = on_yield
@@ -483,6 +485,21 @@ class Registry:
 
     def call_repo(self, ev, rel, qualname, args, kwargs, node, recv_cls=None):
         c = self.contract_for(rel, qualname, recv_cls)
+        cs = self.by_key.get((rel, qualname)) or []
+        if len(cs) > 1 and any(getattr(x, "applies", None) for x in cs):
+            # several contracts for one function, told apart by the shape of the arguments (e.g. a constructor given
+            # a pair list or a mapping): the first one whose `applies` accepts the call
+            for x in cs:
+                ap = getattr(x, "applies", None)
+                if ap is not None and ap(ev, args, kwargs):
+                    c = x
+                    break
+            else:
+                c = next((x for x in cs if getattr(x, "applies", None) is None), c)
+        caller = ev.frame.root().contract
+        if c is not None and not c.inline and caller is not None and c.id in getattr(caller, "inline_callees", ()):
+            fdef = source.find_def(rel, qualname)
+            return inline_call(ev, c, fdef, args, kwargs, node, caller_first=True)
         if c is None:
             raise Unsupported("%s (line %s): call of %s:%s which has no contract" % (
                 ev.frame.relpath, getattr(node, "lineno", 0), rel, qualname))
@@ -599,7 +616,7 @@ class Registry:
         return [], set(c.ghost_modifies)
 
 
-def inline_call(ev, c, fdef, args, kwargs, node):
+def inline_call(ev, c, fdef, args, kwargs, node, caller_first=False):
     """small helper functions (exception constructors, one-line wrappers) may be declared inline=True: the
     body is executed at the call site instead of being summarised.  Listed in the evidence."""
     from .builtins import bind_params
@@ -608,7 +625,7 @@ def inline_call(ev, c, fdef, args, kwargs, node):
     defaults_frame = Frame(c, c.file, c.cls, {})
     dev = Ev(ev.st, defaults_frame, ev.registry, pure=True)
     env = bind_params(ev, fdef.args, args, kwargs, node, defaults_ev=dev)
-    nf = Frame(InlineView(c, ev.frame.root().contract), c.file, c.cls, env, parent=None, fn=fdef)
+    nf = Frame(InlineView(c, ev.frame.root().contract, caller_first), c.file, c.cls, env, parent=None, fn=fdef)
     nf.top = False
     nf.caller = ev.frame.root()
     nf.loop_vars = nf.caller.loop_vars
@@ -624,16 +641,21 @@ def inline_call(ev, c, fdef, args, kwargs, node):
 class InlineView:
     """contract view used while executing an inlined callee: stubs/hooks of the callee first, then the caller's"""
 
-    def __init__(self, callee, caller):
+    def __init__(self, callee, caller, caller_first=False):
         self._callee = callee
         self._caller = caller
+        self._caller_first = caller_first     # a callee inlined on the caller's request runs in the caller's model
 
     def __getattr__(self, name):
         return getattr(self._caller, name)
 
     def find_stub(self, d):
+        if self._caller_first and self._caller:
+            return self._caller.find_stub(d) or self._callee.find_stub(d)
         return self._callee.find_stub(d) or (self._caller.find_stub(d) if self._caller else None)
 
     def find_stub_method(self, cls, meth):
+        if self._caller_first and self._caller:
+            return self._caller.find_stub_method(cls, meth) or self._callee.find_stub_method(cls, meth)
         return self._callee.find_stub_method(cls, meth) or (
             self._caller.find_stub_method(cls, meth) if self._caller else None)
